@@ -324,6 +324,21 @@ func RunAdj(c AdjCase, out *Outcome, emit func(Sent)) {
 				n.listed, n.listedBy = true, e.TW
 			}
 			n.lastTW = e.TW
+			// a hello that changes the set of Up adjacencies makes the server request a new local
+			// LSP: wait for the updater goroutine to have stored it (logical wait, capped)
+			if !eqStrs(upSet(h.Adjs()), prevUp) {
+				deadline := time.Now().Add(3 * time.Second)
+				for {
+					if seq, _, ok, _ := h.OwnLSP(); ok && seq > lastSeq {
+						break
+					}
+					if time.Now().After(deadline) {
+						h.Unsettled++
+						break
+					}
+					time.Sleep(200 * time.Microsecond)
+				}
+			}
 			h.Settle(read)
 			step++
 			out.Count("hellos", 1)
